@@ -1,6 +1,6 @@
 """C09 - exception safety: basic guarantee everywhere, strong where documented."""
 from .. import matrix
-from ..rules import lifetime, callgraph, ownership, closer
+from ..rules import lifetime, callgraph, ownership, closer, round5
 
 
 def run(tier, runner):
@@ -22,6 +22,7 @@ def run(tier, runner):
     r_rt.require(10, 'catch handlers in amc')
     r_cl = closer.closer(progs + real)
     r_cur = lifetime.cursor(progs + real)
+    r_rm = round5.range_measure(progs + real)
     r_cl.require(4, 'roll-back helper overloads (shift_left, unshift_right x relocatable or not)')
     ob['HOLE'].require(3, 'functions that open slots with shift_right')
     ob['TEMP'].require(2, 'functions that build an element in a local ElemStorage')
@@ -32,7 +33,7 @@ def run(tier, runner):
     r_blk.require(3, 'functions that hold a fresh block in a local variable (Reallocate, SmallVectorBase::grow, amc::allocator reallocate)')
     r_tr.require(60, 'amc functions whose exception specification evaluates to noexcept(true)')
     return {
-        'results': [ob['HOLE'], ob['TEMP'], ob['RAWTAIL'], ob['DEAD-TAIL'], r_strong, r_tail, r_tr, r_blk, r_rt, r_cl, r_cur],
+        'results': [ob['HOLE'], ob['TEMP'], ob['RAWTAIL'], ob['DEAD-TAIL'], r_strong, r_tail, r_tr, r_blk, r_rt, r_cl, r_cur, r_rm],
         'explanation': 'Typestate analysis on the structured body of every function of the vector layer and of memory.hpp, per instantiation. '
                        'The may-throw points are exactly the calls from whose resolved callee a throw source (throw expression, allocator request, '
                        'element operation not declared noexcept) is reachable without crossing a noexcept(true) function - the same set the k-th '
